@@ -51,6 +51,11 @@ static void check_hilbert(int n, int kind, vh::Rng& r) {
         }
         break;
     }
+    //the analytic signal is linear in x: a quarter of the inputs live at an extreme but legal level
+    if (r.below(4) == 0) {
+        x *= std::pow(10.0, r.uni(-250, 250));
+        vh::obs_add("hilbert_inputs_at_extreme_level");
+    }
     vh::begin_case("hilbert", "n=%d input=%s", n, kn[kind]);
     const arr_cmplx z = dl::hilbert(x);
     vh::Hasher hh;
@@ -287,6 +292,11 @@ int main(int argc, char** argv) {
                 default:
                     f = (r.coin() ? 1.0 : -1.0) * double(fs / 2);   //band edge (the constructor admits |f| <= fs/2 in integer arithmetic)
                     break;
+                }
+                if (j >= 4 && (j % 4) <= 1) {
+                    //a non-integer frequency very close to an integer (1e-9 .. 1e-4 away): the phase still advances by f/fs per sample for ever
+                    const double base = double(r.range(-fs / 2 + 1, fs / 2 - 1));
+                    f = base + (r.coin() ? 1.0 : -1.0) * std::pow(10.0, r.uni(-9, -4));
                 }
                 if (std::fabs(f) > double(fs / 2)) {
                     f = (f > 0 ? 1.0 : -1.0) * (double(fs / 2) - 0.25);   //keep f admissible for odd fs
